@@ -1,4 +1,191 @@
+(* C07 — objects obey the ES5 property model: attributes, inheritance, extensibility.
+   Only statements here; proofs are in C07/Proofs.v (laws of the ES5 state machine
+   Spec over all finite histories) and C07/ProofsRefine.v (otto's octal-mode
+   algorithm Model against Spec).  The correspondence run ties otto itself to
+   Model and Spec on every generated history. *)
 From Coq Require Import ZArith NArith List Bool.
-From Otto Require Import C07.Spec C07.Model C07.Proofs C07.Corr.
+From Otto Require Import C07.Spec C07.Model C07.Proofs C07.ProofsRefine C07.ProofsRefineFixed.
 Import ListNotations.
 Open Scope Z_scope.
+
+(* ---- laws of the object model, for every finite history of operations from every state ---- *)
+
+(* a non-writable, non-configurable value never changes *)
+Theorem C07_nonwritable_value_constant : forall s ops a n v e,
+  own_prop s a n = Some (PData v false e false) ->
+  own_prop (exec s ops) a n = Some (PData v false e false).
+Proof. exact nonwritable_value_constant. Qed.
+Print Assumptions C07_nonwritable_value_constant.
+
+(* a non-configurable property is never deleted and never re-shaped: it stays own, non-configurable,
+   of the same kind and enumerability; an accessor keeps its functions, a data property may only go
+   from writable to non-writable and keeps its value once non-writable *)
+Theorem C07_nonconfigurable_persistent : forall s ops a n p,
+  own_prop s a n = Some p -> p_conf p = false ->
+  exists p', own_prop (exec s ops) a n = Some p' /\
+    p_conf p' = false /\ p_enum p' = p_enum p /\
+    match p, p' with
+    | PData v w _ _, PData v' w' _ _ => (w = false -> v' = v /\ w' = false)
+    | PAcc g s _ _, PAcc g' s' _ _ => g' = g /\ s' = s
+    | _, _ => False
+    end.
+Proof. exact nonconfigurable_persistent. Qed.
+Print Assumptions C07_nonconfigurable_persistent.
+
+(* a non-extensible object never gains a property and never becomes extensible again *)
+Theorem C07_nonextensible_no_growth : forall s ops a n,
+  ext_of s a = Some false ->
+  ext_of (exec s ops) a = Some false /\
+  (own_prop (exec s ops) a n <> None -> own_prop s a n <> None).
+Proof. exact nonextensible_no_growth. Qed.
+Print Assumptions C07_nonextensible_no_growth.
+
+(* a frozen object is a fixed point: prototype, extensibility and every property are as before *)
+Theorem C07_frozen_is_fixed_point : forall s ops a o,
+  nth_error (s_heap s) a = Some o -> is_frozen o = true ->
+  exists o', nth_error (s_heap (exec s ops)) a = Some o' /\
+    o_proto o' = o_proto o /\ o_ext o' = false /\
+    forall n, lookup (o_props o') n = lookup (o_props o) n.
+Proof. exact frozen_is_fixed_point. Qed.
+Print Assumptions C07_frozen_is_fixed_point.
+
+(* in every state reachable from the initial one, no object lists an own name twice *)
+Theorem C07_keys_nodup : forall s a o, reachable s -> nth_error (s_heap s) a = Some o ->
+  NoDup (own_names o) /\ NoDup (own_keys o).
+Proof. exact keys_nodup. Qed.
+Print Assumptions C07_keys_nodup.
+
+(* for-in over any prototype chain of a reachable state visits no name twice *)
+Theorem C07_forin_nodup : forall s a, reachable s -> NoDup (forin (length (s_heap s)) (s_heap s) a []).
+Proof. intros s a R. exact (proj1 (forin_nodup _ (reachable_nodup s R) _ a [])). Qed.
+Print Assumptions C07_forin_nodup.
+
+(* after a successful delete the name is no own property and is not enumerated *)
+Theorem C07_deleted_not_enumerated : forall o n o',
+  delete_own o n = (o', true) ->
+  lookup (o_props o') n = None /\ ~ In n (own_names o') /\ ~ In n (own_keys o').
+Proof. exact deleted_not_enumerated. Qed.
+Print Assumptions C07_deleted_not_enumerated.
+
+(* an accessor inherited through the prototype chain governs assignment *)
+Theorem C07_inherited_accessor_governs_put : forall h a o pa n v g s e c,
+  nth_error h a = Some o -> lookup (o_props o) n = None -> o_proto o = Some pa ->
+  get_property (length h) h pa n = Some (PAcc g s e c) ->
+  put h a n v = (h, match s with Some f => [f + 1; Z.of_nat a; enc_val v] | None => [] end).
+Proof. exact inherited_accessor_governs_put. Qed.
+Print Assumptions C07_inherited_accessor_governs_put.
+
+Theorem C07_put_nonwritable : forall h a o n v v0 e c,
+  nth_error h a = Some o -> lookup (o_props o) n = Some (PData v0 false e c) -> put h a n v = (h, []).
+Proof. exact put_nonwritable. Qed.
+Print Assumptions C07_put_nonwritable.
+
+(* ---- otto's algorithm against ES5 ---- *)
+
+(* toPropertyDescriptor is 8.10.5 for every descriptor object, including malformed ones *)
+Theorem C07_descriptor_conversion : forall r, option_map abs_desc (to_mdesc r) = to_desc r.
+Proof. exact to_mdesc_refines. Qed.
+Print Assumptions C07_descriptor_conversion.
+
+(* objectDefineOwnProperty on an existing property is 8.12.9 steps 5-13, for every stored property
+   (any valid octal mode, any payload), every descriptor, outside the two defect classes *)
+Theorem C07_define_refines : forall p d,
+  wf_prop p -> wf_desc d ->
+  loses_writable p d = false -> acc_to_data_no_value p d = false ->
+  abs_res p (m_define_existing nofix p d) = define_existing (abs_prop p) (abs_desc d).
+Proof. exact define_existing_refines. Qed.
+Print Assumptions C07_define_refines.
+
+Theorem C07_define_new_refines : forall d, wf_desc d -> abs_prop (m_define_new d) = define_new (abs_desc d).
+Proof. exact define_new_refines. Qed.
+Print Assumptions C07_define_new_refines.
+
+(* which octal modes / payloads are reachable: well-formedness is kept by every redefinition *)
+Theorem C07_mode_reachable : forall p d p',
+  wf_prop p -> wf_desc d -> acc_to_data_no_value p d = false ->
+  m_define_existing nofix p d = DOk p' -> wf_prop p'.
+Proof. exact define_existing_wf. Qed.
+Print Assumptions C07_mode_reachable.
+
+(* with the two proposed repairs of objectDefineOwnProperty applied (proposed_fixes/C07-writable-lost.diff,
+   C07-acc-to-data.diff; Model's [allfix]) the refinement holds without any guard *)
+Theorem C07_define_refines_after_fix : forall p d,
+  wf_prop p -> wf_desc d ->
+  abs_res p (m_define_existing allfix p d) = define_existing (abs_prop p) (abs_desc d).
+Proof. exact define_existing_refines_after_fix. Qed.
+Print Assumptions C07_define_refines_after_fix.
+
+(* ---- otto's deviations, as refutations with witnesses ---- *)
+Theorem C07_generic_writable_refuted :
+  exists p d, wf_prop p /\ wf_desc d /\
+    abs_res p (m_define_existing nofix p d) <> define_existing (abs_prop p) (abs_desc d).
+Proof. exact generic_writable_refuted. Qed.
+Print Assumptions C07_generic_writable_refuted.
+
+Theorem C07_accessor_to_data_no_value_refuted :
+  exists p d, wf_prop p /\ wf_desc d /\ m_define_existing nofix p d = DOk (mkMP (SGetSet (Some 0) None) 65%N)
+    /\ m_obs_desc nofix (Some (mkMP (SGetSet (Some 0) None) 65%N)) = None
+    /\ define_existing (abs_prop p) (abs_desc d) = Some (PData VUndef true false true).
+Proof. exact accessor_to_data_no_value_refuted. Qed.
+Print Assumptions C07_accessor_to_data_no_value_refuted.
+
+Theorem C07_get_undefined_pair_refuted :
+  exists r d, to_mdesc r = Some d /\
+    m_obs_desc nofix (Some (m_define_new d)) <> Some (obs_desc (Some (define_new (abs_desc d)))).
+Proof. exact get_undefined_pair_refuted. Qed.
+Print Assumptions C07_get_undefined_pair_refuted.
+
+Definition num (z : Z) := VNum z.
+Definition dsc v w g s e c := mkR v w g s e c.
+
+Theorem C07_forin_shadow_refuted :
+  exists ops, fst (mrun nofix minit ops) <> run init ops.
+Proof.
+  exists [OPut 0 0 (num 1); OCreate 1 (Some 0%nat) None; OPut 1 0 (num 2)]. vm_compute. discriminate.
+Qed.
+Print Assumptions C07_forin_shadow_refuted.
+
+Theorem C07_defineproperties_partial_refuted :
+  exists ops, fst (mrun nofix minit ops) <> run init ops.
+Proof.
+  exists [ODefines 0 [(0, dsc (Some (num 1)) None GAbsent GAbsent None None);
+                      (1, dsc None None GBad GAbsent None None)]]. vm_compute. discriminate.
+Qed.
+Print Assumptions C07_defineproperties_partial_refuted.
+
+Theorem C07_forin_delete_refuted :
+  exists ops, fst (mrun nofix minit ops) <> run init ops.
+Proof.
+  exists [OPut 0 0 (num 1); OPut 0 1 (num 2); OPut 0 2 (num 3); OForInDel 0 0 0 0]. vm_compute. discriminate.
+Qed.
+Print Assumptions C07_forin_delete_refuted.
+
+(* ---- non-vacuity: the hypotheses above are met by concrete histories ---- *)
+Definition frozen_history : list op :=
+  [OPut 0 0 (num 1); ODefine 0 1 (dsc None None (GFn 0) GAbsent (Some true) None); OFreeze 0].
+
+Example C07_frozen_hyp_met :
+  exists o, nth_error (s_heap (exec init frozen_history)) 0 = Some o /\ is_frozen o = true /\
+            lookup (o_props o) 0 = Some (PData (num 1) false true false).
+Proof. eexists. vm_compute. auto. Qed.
+
+Example C07_nonwritable_hyp_met :
+  own_prop (exec init frozen_history) 0 0 = Some (PData (num 1) false true false) /\
+  ext_of (exec init frozen_history) 0 = Some false /\ reachable (exec init frozen_history).
+Proof. split; [reflexivity | split; [reflexivity | exists frozen_history; reflexivity]]. Qed.
+
+Example C07_inherited_accessor_hyp_met :
+  let h := s_heap (exec init [ODefine 0 0 (dsc None None GAbsent (GFn 1) None None); OCreate 1 (Some 0%nat) None]) in
+  exists o, nth_error h 3 = Some o /\ lookup (o_props o) 0 = None /\ o_proto o = Some 0%nat /\
+            get_property (length h) h 0 0 = Some (PAcc None (Some 1) false false).
+Proof. eexists. vm_compute. auto. Qed.
+
+Example C07_define_refines_hyp_met :
+  wf_prop (mkMP (SVal (num 1)) 73%N) /\ wf_desc (mkMD (DVal (num 2)) 146%N) /\
+  loses_writable (mkMP (SVal (num 1)) 73%N) (mkMD (DVal (num 2)) 146%N) = false /\
+  acc_to_data_no_value (mkMP (SVal (num 1)) 73%N) (mkMD (DVal (num 2)) 146%N) = false.
+Proof. repeat split; try reflexivity; try exact I; apply valid_b; reflexivity. Qed.
+
+Example C07_delete_hyp_met :
+  exists o', delete_own (mkO None true [(0, PData (num 1) true true true)]) 0 = (o', true).
+Proof. eexists. reflexivity. Qed.
